@@ -136,6 +136,11 @@ func ZZ_C03_data_gate() {
 	if zzsym.Bool("altertx") {
 		d.Txs = types.Txs{types.Tx(zzsym.BytesN("mtx", 1))}
 	}
+	// structurally unusual but decodable third-party material: no metadata section
+	noMeta := zzsym.Bool("nometadata")
+	if noMeta {
+		d.Metadata = nil
+	}
 	sd := &types.SignedData{Data: *d, Signer: types.Signer{PubKey: e.pub, Address: e.addr}}
 	if zzsym.Bool("ownkey") {
 		sd.Signer.PubKey = p.pub
@@ -144,7 +149,10 @@ func ZZ_C03_data_gate() {
 		sd.Signer.Address = types.KeyAddress(p.pub)
 	}
 	bz, _ := sd.Data.MarshalBinary()
-	switch zzsym.Pick("sig", 3) {
+	sigKind := zzsym.Pick("sig", 3)
+	// the proposer never signs data without metadata, so a third party has no such signature
+	zzsym.Assume(!(noMeta && sigKind == 0))
+	switch sigKind {
 	case 0:
 		sd.Signature, _ = e.signer.Sign(bz) // only possible for unaltered data: see below
 	case 1:
